@@ -412,7 +412,44 @@ func unpublishedExit(c *Ctx, in ssa.Instruction) []string {
 // comes from the pending updates, and from the old main map only when the
 // updates have none.
 func pcacheMergePrecedence(c *Ctx, rule string) {
+	// the writers, and the unexported helpers they call (the rebuild may be shared between the two writers)
+	var scope []*Fn
+	seenFn := map[*ssa.Function]bool{}
 	for _, w := range pcacheWriters(c) {
+		if !seenFn[w.SSA] {
+			seenFn[w.SSA] = true
+			scope = append(scope, w)
+		}
+		for _, st := range c.CallsInl(w.SSA, Any(), 2) {
+			callee := st.In.Common().StaticCallee()
+			if callee == nil || seenFn[callee] || !samePkgBody(w.SSA, callee) || callee.Object() == nil || callee.Object().Exported() {
+				continue
+			}
+			seenFn[callee] = true
+			if obj, ok := callee.Object().(*types.Func); ok {
+				if f := c.fnOf(obj); f != nil {
+					scope = append(scope, f)
+				}
+			}
+		}
+	}
+	isOldMain := func(x *X) bool {
+		x = strip(x)
+		if x.Op == "field" && x.Name == "m" {
+			return true
+		}
+		vals, _ := c.ActualsAt(x)
+		if len(vals) == 0 {
+			return false
+		}
+		for _, v := range vals {
+			if v = strip(v); v.Op != "field" || v.Name != "m" {
+				return false
+			}
+		}
+		return true
+	}
+	for _, w := range scope {
 		instrs(w.SSA, func(in ssa.Instruction) {
 			mu, ok := in.(*ssa.MapUpdate)
 			if !ok {
@@ -431,7 +468,7 @@ func pcacheMergePrecedence(c *Ctx, rule string) {
 				if b, ok := Match(Or(Extract("0", BindP("lk", Op("lookup", "", Bind("map")))), BindP("lk", Op("lookup", "", Bind("map")))), a); ok {
 					if isFreshMap(c, b["map"]) {
 						upd = b["lk"]
-					} else if b["map"].Op == "field" && b["map"].Name == "m" {
+					} else if isOldMain(b["map"]) {
 						old = b["lk"]
 					}
 				}
